@@ -684,7 +684,37 @@ def _subst_placeholders(text, lets, fname):
         if k >= len(hits):
             raise Unsupported('%s: placeholder %s: only %d matching let statements' % (fname, m.group(0), len(hits)))
         return hits[k]
-    text = re.sub(r'\$let<([^>]+)>#(\d+)', rep, text)
+    # innermost first, so that placeholders nest: $let<$let<HashMap::new>#0.len()>#0
+    for _round in range(6):
+        t2 = re.sub(r'\$let<([^<>$]+)>#(\d+)', rep, text)
+        if t2 == text:
+            break
+        text = t2
+    if '$let<' in text:
+        raise Unsupported('%s: unresolved $let placeholder' % fname)
+
+    def reprecv(m):
+        # $recv<TOKENS>#k : the identifier directly in front of the k-th occurrence of TOKENS in the body
+        frag = [t.text for t in tokenize(m.group(1)) if t.sig()]
+        k = int(m.group(2))
+        body = lets.bodytexts
+        hits = [body[a - 1] for a in range(1, len(body) - len(frag) + 1)
+                if body[a:a + len(frag)] == frag and re.fullmatch(r'[A-Za-z_]\w*', body[a - 1])]
+        if k >= len(hits):
+            raise Unsupported('%s: placeholder %s: only %d occurrences' % (fname, m.group(0), len(hits)))
+        return hits[k]
+    text = re.sub(r'\$recv<([^<>$]+)>#(\d+)', reprecv, text)
+
+    def repx(m):
+        # $letx<TOKENS;NAME>#k : like $let, skipping the local called NAME
+        frag = [t.text for t in tokenize(m.group(1)) if t.sig()]
+        k = int(m.group(3))
+        hits = [nm for (nm, init) in lets
+                if nm != m.group(2).strip() and any(init[a:a + len(frag)] == frag for a in range(0, len(init) - len(frag) + 1))]
+        if k >= len(hits):
+            raise Unsupported('%s: placeholder %s: only %d matching let statements' % (fname, m.group(0), len(hits)))
+        return hits[k]
+    text = re.sub(r'\$letx<([^<>$;]+);([^<>$;]+)>#(\d+)', repx, text)
 
     def repf(m):
         k, i = int(m.group(1)), int(m.group(2))
@@ -700,10 +730,11 @@ def _resolve_spec(spec, body, fname):
     if spec is None:
         return None
     alltext = ''.join(spec.sections.values()) + ''.join(a[1] + a[2] for a in spec.anchors)
-    if '$let<' not in alltext and '$for<' not in alltext:
+    if '$let' not in alltext and '$for<' not in alltext and '$recv<' not in alltext:
         return spec
     lets = LetList(_collect_lets(body))
     lets.forpats = _collect_for_patterns(body)
+    lets.bodytexts = [t.text for t in body if t.sig()]
     c = FnSpec(spec.file, spec.impl_re, spec.name)
     c.tags, c.ctags, c.ret, c.lineno = spec.tags, spec.ctags, spec.ret, spec.lineno
     c.sections = dict((k, _subst_placeholders(v, lets, fname)) for k, v in spec.sections.items())
